@@ -14,4 +14,5 @@ APPENDS = {
 NEW_FILES = {
     "rustzx-core/examples/verif_contention.rs": "include!(\"@VERIF@/replay/contention.rs\");\n",
     "rustzx-test/tests/verif_driving.rs": "include!(\"@VERIF@/replay/driving.rs\");\n",
+    "rustzx-test/tests/verif_szx.rs": "include!(\"@VERIF@/replay/szx_native.rs\");\n",
 }
